@@ -43,12 +43,12 @@ fn plan(p: &str) -> Option<Plan> {
         "C01" => d(&[("dag", 5), ("dag-faults", 3), ("txn-race", 1), ("adversarial", 1)], &["C01"], 6000, 80000, "two replicas (or one replica at two points) reached the same committed command set through different ingest histories and the set has >= 2 heads or >= 1 merge"),
         "C02" => d(&[("dag", 4), ("finalize", 1), ("adversarial", 2), ("sync-size", 1)], &["C02", "C03"], 6000, 80000, "run contains a braid (multi-head commit, merge ingest or collapse) evaluating >= 3 commands"),
         "C03" => d(&[("dag", 4), ("finalize", 2), ("adversarial", 2), ("facts", 1)], &["C03", "C02"], 6000, 80000, "run contains >= 1 merge command or multi-head commit whose state was compared with the reference braid"),
-        "C04" => d(&[("dag", 5), ("hello", 2), ("sessions", 1)], &["C04"], 6000, 80000, "an action ran on a committed multi-head graph"),
+        "C04" => d(&[("dag", 5), ("hello", 2), ("sessions", 1), ("crash", 1)], &["C04"], 6000, 80000, "an action ran on a committed multi-head graph"),
         "C05" => d(&[("finalize", 6), ("adversarial", 2), ("dag", 1)], &["C05"], 6000, 80000, "run exercised both outcomes or a finalize command that is not a tip"),
         "C06" => d(&[("adversarial", 7), ("facts", 2), ("txn-race", 1)], &["C06", "C13"], 8000, 100000, "a command was rejected at origin while its transaction held >= 1 accepted command"),
         "C07" => d(&[("dag", 5), ("hello", 2), ("facts", 2), ("dag-faults", 1), ("crash", 1)], &["C07"], 6000, 80000, "an action failed after publishing >= 1 command (or on a multi-head graph) and another action succeeded in the same run"),
         "C08" => d(&[("txn-race", 7), ("adversarial", 1), ("dag", 2), ("crash", 1)], &["C08"], 6000, 80000, "run has >= 1 ConcurrentTransaction refusal and >= 1 successful commit"),
-        "C09" => d(&[("adversarial", 4), ("dag", 4), ("txn-race", 2)], &["C09"], 6000, 80000, "committed head set with >= 2 heads was checked against the frontier"),
+        "C09" => d(&[("adversarial", 4), ("dag", 4), ("txn-race", 2), ("crash", 1)], &["C09"], 6000, 80000, "committed head set with >= 2 heads was checked against the frontier"),
         "C10" => d(&[("adversarial", 8), ("dag", 1)], &["C10"], 6000, 80000, "an init-shaped command was refused or a graph was created from a synced init"),
         "C11" => d(&[("facts", 4), ("dag", 4), ("sync-size", 1), ("crash", 1)], &["C11"], 5000, 60000, "ancestry and lookup answers were compared on a graph with >= 1 merge or a skip-list jump"),
         "C12" => d(&[("facts", 7), ("dag", 2), ("adversarial", 1)], &["C12"], 6000, 80000, "perspective dumps were compared on a run that compacted a fact index or read a mid-segment perspective"),
